@@ -716,6 +716,32 @@ func (w *walker) rangeStmt(s *ast.RangeStmt) {
 		w.opaque(s.Pos(), "range over something that is not a receiver field")
 		return
 	}
+	// a fixed-size array field: the loop runs exactly N times - the same wire effect as N unrolled statements
+	if t := w.info().TypeOf(rx); t != nil {
+		if pt, isP := t.Underlying().(*types.Pointer); isP {
+			t = pt.Elem()
+		}
+		if arr, isA := t.Underlying().(*types.Array); isA && arr.Len() >= 1 && arr.Len() <= 16 {
+			for i := int64(0); i < arr.Len(); i++ {
+				if s.Key != nil && !isBlank(s.Key) {
+					if id, ok := s.Key.(*ast.Ident); ok {
+						if obj := w.info().Defs[id]; obj != nil {
+							w.env[obj] = vConst{V: constant.MakeInt64(i)}
+						}
+					}
+				}
+				if s.Value != nil && !isBlank(s.Value) {
+					if id, ok := s.Value.(*ast.Ident); ok {
+						if obj := w.info().Defs[id]; obj != nil {
+							w.env[obj] = vPath{P: xv.P.extend(Elem{Index: int(i)})}
+						}
+					}
+				}
+				w.block(s.Body.List)
+			}
+			return
+		}
+	}
 	loop.Over = xv.P
 	if cnt, ok := w.made[xv.P.String()]; ok && !w.encode && loop.Count.IsZero() {
 		loop.Count = cnt
